@@ -15,11 +15,18 @@ SPECIAL = ["", " ", "\n\n", "\t", "   \n  \n", "x = 1\x00", "\x00", "x = '\ud800
            "x = 1\n  y = 2\n", "def f(:\n", "print 'a'\n", "x = = 1\n", "'unterminated\n", "x = [1, 2\n", "\x1a",
            "x = 1 # comment \x00 after", "é = 1\n", "a = 1;;\n", "\ufeffx = 1\n", "x = 1\\\n", "\\",
            "a = 1\rb = (\r", "if 1:\r\tx = 1\r        y = 2\r", "a = 1\r\rb = = 2\r", "ok = 1\r\nbad = (\r\n",
-           "v = 1\rdef f(:\r    pass\r"]
+           "v = 1\rdef f(:\r    pass\r",
+           # text that str.strip() calls blank but the parser rejects
+           "\x1c", "\x1d", "\x1e", "\x1f", "\x85", "\xa0", " ", " ", "　", " \x1f \n", "\n\xa0\n",
+           # lone-CR files with a syntax error spanning several lines, on and after line 1
+           "x = (1,\r2\r3 4)", "a = 1\rx = (1,\r2\r3 4)\r", "a = 1\rb = 2\rx = [1,\r2\r3 4]", "ok = 1\rs = f(1,\r 2\r 3 4)\rz = 1\r",
+           "a = 1\rx = (1,\r2\r3)\ry = = 1\r", "a = 1\rq = \"\"\"abc\rdef\r", "a = 1\rx = {1:\r2,\r3}\r!\r",
+           # characters splitlines() treats as line breaks but the parser does not, before an error
+           "a = '\x0c'\nb = ' '\nc = (\n", "a = 1\x0c\nb = 2\x0b\nc = = 3\n", "s = '\x85'\ny = (1\n"]
 
 
 def mutate(rnd, text):
-    chars = "()[]{}:'\"\\\n\t =,+x1#\x0c\r"
+    chars = "()[]{}:'\"\\\n\t =,+x1#\x0c\r\r\x1f\xa0\u2028"
     t = list(text)
     for _ in range(rnd.choice([1, 1, 2])):
         if t and rnd.random() < 0.5:
